@@ -1,3 +1,5 @@
+import NgoVerif.Proofs.C11sem
+import NgoVerif.Sem.Head
 import NgoVerif.Generated.Tables
 import NgoVerif.Meta.Algebra
 import NgoVerif.Meta.Meta2
@@ -32,5 +34,53 @@ own declaration lists, under the parameter names the class declares, and replace
 theorem C11_wiring :
     Tables.API_ARGS.lookup "symmetry" = some (["input_", "input_predicates"], "input_", "input_") ∧
     Tables.CTOR_PARAMS.lookup "symmetry" = some ["prg", "input_predicates"] := by decide
+
+/-! ## end to end for typed programs: `X != Y` ⟶ `X < Y` from a syntactic symmetry condition -/
+open Proofs.C11sem in
+/-- **the `<` rewrite of `symmetry` is a strong equivalence** whenever the rest of the rule is symmetric in the two
+compared variables (`Proofs/C11sem.lean`; renaming lemma in `Sem/Rename.lean`): same here-and-there models, hence the
+same stable models whatever statements (in particular: whatever facts) are added -/
+theorem C11_neq_to_lt_strongeq (P : Sem.PParams) (pre post : Prog) (l c : Nat) (X Y : String) (h : Head) (b : List BLit)
+    (hs : Symmetric P X Y h b) :
+    Sem.StrongEq P (pre ++ .rule l c h (b ++ [cmpBLit X .ne Y]) :: post)
+      (pre ++ .rule l c h (b ++ [cmpBLit X .lt Y]) :: post) :=
+  neq_to_lt_strongEq P pre post l c X Y h b hs
+
+open Proofs.C11sem in
+theorem C11_neq_to_lt_stable (P : Sem.PParams) (pre post : Prog) (l c : Nat) (X Y : String) (h : Head) (b : List BLit)
+    (hs : Symmetric P X Y h b) (T : Sem.Interp) :
+    Sem.Stable P (pre ++ .rule l c h (b ++ [cmpBLit X .ne Y]) :: post) T ↔
+      Sem.Stable P (pre ++ .rule l c h (b ++ [cmpBLit X .lt Y]) :: post) T :=
+  (neq_to_lt_strongEq P pre post l c X Y h b hs).stable P T
+
+open Proofs.C11sem in
+/-- under the standard head semantics the head condition of `Symmetric` holds as soon as the head mentions neither variable -/
+theorem C11_head_condition (P : Sem.Params) (X Y : String) (h : Head) (hX : X ∉ h.vars) (hY : Y ∉ h.vars)
+    (G : String → Prop) (e : Sem.Env) (H T : Sem.Interp) :
+    (Sem.stdParams P).headSat G (fun v => e (swap X Y v)) H T h ↔ (Sem.stdParams P).headSat G e H T h := by
+  rw [Sem.stdParams_headSat]
+  apply Sem.stdHeadSat_congr
+  intro v hv
+  have h1 : v ≠ X := fun hh => hX (hh ▸ hv)
+  have h2 : v ≠ Y := fun hh => hY (hh ▸ hv)
+  simp [swap, h1, h2]
+
+/-! non-vacuity: `f :- p(A,S), p(B,S), A != B.` satisfies the symmetry condition -/
+section Example
+open Proofs.C11sem Sem
+private def pA : BLit := .lit (.pos, .sym (.fn "p" [.var "A", .var "S"] false))
+private def pB : BLit := .lit (.pos, .sym (.fn "p" [.var "B", .var "S"] false))
+example : ∀ l, l ∈ renameBody (swap "A" "B") [pA, pB] ↔ l ∈ [pA, pB] := by
+  intro l
+  simp [renameBody, renameBLit, renameLit, renameAtom, renameTerm, renameTerms, swap, pA, pB, or_comm]
+example (P : PParams) (hg : P.headGlobals (.lit (.pos, .sym (.fn "f" [] false))) = []) :
+    ∀ v, v ∈ ruleGlobals P (.lit (.pos, .sym (.fn "f" [] false))) ([pA, pB] ++ [cmpBLit "A" .ne "B"]) ↔
+      swap "A" "B" v ∈ ruleGlobals P (.lit (.pos, .sym (.fn "f" [] false))) ([pA, pB] ++ [cmpBLit "A" .ne "B"]) := by
+  intro v
+  simp only [ruleGlobals, hg, bodyGlobals, pA, pB, cmpBLit, blitGlobals, litVars, litTerms, Atom.terms, Term.vars,
+    List.nil_append, List.cons_append, List.flatMap_cons, List.flatMap_nil, List.append_nil, List.mem_cons, List.not_mem_nil,
+    or_false, swap]
+  by_cases h1 : v = "A" <;> by_cases h2 : v = "B" <;> by_cases h3 : v = "S" <;> simp_all
+end Example
 
 end NgoVerif
